@@ -234,5 +234,11 @@ def run(ctx):
     with StepMonitor(ctx, "natural") as mon:
         EN.run_natural(pq, EngineRecorder(), ctx.seed + 3, per_family=8 if quick else 60)
     ctx.notes["states_monitored_in_natural_runs"] = mon.n
+    ctx.tick("monitors")
+    # post-measurement states of general-dyne measurements: exact conditional state of PqDyne (physical by construction on the spec)
+    from . import c02
+    with StepMonitor(ctx, "dyne") as mon2:
+        c02.part_dyne_spec(ctx, pq, quick, random.Random(ctx.seed + 8), pid="C08")
+    ctx.tick("dyne_conditional")
     ctx.assumptions += ["monitors use numpy eigvalsh / det in double precision with 1e-8..1e-12 tolerances",
                         "exact norms only for number-conserving lattice behaviours (PqOptics); Gaussian monitors compare get_purity with 1/sqrt(det(sigma/hbar))"]
